@@ -28,6 +28,7 @@ def convOk (op : String) (args : List String) : Option String :=
   | "conv.ecdh", [_, _, _] => some "ok"
   | "conv.gen", [_, _] => some "ok"
   | "conv.keyset", [_] => some "ok"
+  | "conv.keyset", [_, _, _] => some "ok"
   | _, _ => none
 
 def dispatch (op : String) (args : List String) : Option String :=
